@@ -82,6 +82,7 @@ type GroundOb struct {
 
 type ContractSet struct {
 	Funcs   map[string]*Contract
+	UFuns   map[string]*Spec // uninterpreted functions (no body)
 	Specs   map[string]*Spec
 	Lemmas  []*Lemma
 	Grounds []*GroundOb
@@ -304,6 +305,14 @@ func (cs *ContractSet) loadFile(path string, goFile bool, pkgName string, assume
 				return fmt.Errorf("%s:%d: duplicate spec %s", path, l.line, sp.Name)
 			}
 			cs.Specs[sp.Name] = sp
+		case "ufun":
+			cur, curLemma, curGlobal = nil, nil, false
+			sp, err := parseSpec(rest+" = true", path, l.line)
+			if err != nil {
+				return err
+			}
+			sp.Body = nil
+			cs.UFuns[sp.Name] = sp
 		case "lemma":
 			cur, curGlobal = nil, false
 			curLemma = &Lemma{Name: rest, File: path, Line: l.line}
@@ -501,7 +510,7 @@ func matchParen(s string, i int) int {
 }
 
 func loadContracts(repo, verifDir string) (*ContractSet, error) {
-	cs := &ContractSet{Funcs: map[string]*Contract{}, Specs: map[string]*Spec{}}
+	cs := &ContractSet{Funcs: map[string]*Contract{}, Specs: map[string]*Spec{}, UFuns: map[string]*Spec{}}
 	// specs + assumed first
 	for _, sub := range []string{"spec", "assumed"} {
 		files, _ := filepath.Glob(filepath.Join(verifDir, sub, "*.spec"))
